@@ -5,11 +5,14 @@ usage: c21_sched.py <repo> <outdir>
 
 Writes a copy of <repo>/internal/auth/auth.go in which
   * VerifyToken calls verifSched("verify:after-cache-miss") after the cache lookup
-    missed (after the miss counter, else right before the token query),
-    verifSched("verify:after-query") once the token query (the single
-    am.db.Query/QueryContext call) and its error check have passed, and
-    verifSched("verify:before-insert") right before every am.cacheMu.Lock() that
-    follows the query (the cache insert) - wherever those landmarks sit;
+    missed (after the miss counter, else right before the token query);
+  * the function that holds the token query (the single am.db.Query/QueryContext
+    call on VerifyToken's call path: VerifyToken itself or a helper method it
+    calls, transitively) calls verifSched("verify:after-query") once the query and
+    its error check have passed and verifSched("verify:before-insert") right before
+    every am.cacheMu.Lock() that follows; when it is a helper it also defers
+    verifSched("verify:miss-exit"), which fires when the helper returns (rows
+    closed, connection released, result not yet back in VerifyToken);
   * every other function of auth.go calls verifSched("cache-lock:<func>") before
     each am.cacheMu.Lock() it takes (helpers on VerifyToken's hit path);
   * InvalidateCache calls verifSched("invalidate:enter") before taking the lock and
@@ -98,20 +101,55 @@ def next_code_line(s, i):
     return len(s), ""
 
 
-def instrument_verify(body):
-    """Insert the three VerifyToken points at semantic landmarks: the token
-    query (am.db.Query / QueryContext - must exist exactly once), the cache
-    lookup miss before it, and every am.cacheMu.Lock() after it (the cache
-    insert), wherever they sit (inside the rows loop, after it, after an
-    explicit rows.Close())."""
-    qs = list(re.finditer(r"\bam\.db\.Query(?:Context)?\(", body))
+LOCK_RE = r"^[ \t]*am\.cacheMu\.Lock\(\)[ \t]*$"
+QUERY_RE = r"\bam\.db\.Query(?:Context)?\("
+VT_HEADER = r"^func \(am \*AuthManager\) VerifyToken\(token string\) \*TokenInfo \{"
+
+
+def all_funcs(src):
+    """name -> (index of the body's '{', index of its '}') for every top-level func"""
+    out = {}
+    for h in re.finditer(r"^func (?:\([^)]*\) )?(\w+)\(.*\{[ \t]*$", src, re.M):
+        o = src.rindex("{", h.start(), h.end())
+        out[h.group(1)] = (o, match_close(src, o, "func " + h.group(1)))
+    return out
+
+
+def reachable_from_verify(src):
+    """VerifyToken plus the methods of the file it calls (am.X(...)), transitively"""
+    funcs = all_funcs(src)
+    if "VerifyToken" not in funcs:
+        die("no func VerifyToken in auth.go")
+    seen, todo = ["VerifyToken"], ["VerifyToken"]
+    while todo:
+        o, c = funcs[todo.pop()]
+        for m in re.finditer(r"\bam\.(\w+)\(", src[o:c]):
+            n = m.group(1)
+            if n in funcs and n not in seen:
+                seen.append(n)
+                todo.append(n)
+    return seen
+
+
+def apply_inserts(body, ins):
+    for at, text in sorted(ins, reverse=True):
+        body = body[:at] + text + body[at:]
+    return body
+
+
+def instrument_query_func(body, name, in_verify):
+    """Points around the token query in the function that holds it (VerifyToken
+    itself, or a helper it calls): after the query statement and its error
+    check, and before every am.cacheMu.Lock() that follows (the cache insert),
+    wherever those sit. In a helper, additionally a deferred point that fires
+    when the helper returns (rows closed, connection released, result not yet
+    handed back to VerifyToken)."""
+    qs = list(re.finditer(QUERY_RE, body))
     if len(qs) != 1:
-        die("VerifyToken: expected exactly one am.db.Query/QueryContext call (the token query), found %d" % len(qs))
+        die("%s: expected exactly one am.db.Query/QueryContext call (the token query), found %d" % (name, len(qs)))
     q = qs[0]
     q_stmt = line_start(body, q.start())
     q_close = match_close(body, q.end() - 1, "token query call")
-
-    # 1. after-query: after the statement and the error check that directly follows it
     pos = line_end(body, q_close)
     ind = indent_at(body, q.start())
     ns, nt = next_code_line(body, pos)
@@ -121,33 +159,78 @@ def instrument_verify(body):
     if re.match(r"defer\s+\w+\.Close\(\)\s*$", nt):
         pos = line_end(body, ns)
     after_query = pos
+    ins = [(after_query, ind + 'verifSched("verify:after-query")\n')]
+    nlocks = 0
+    for m in re.finditer(LOCK_RE, body, re.M):
+        if m.start() > after_query:
+            ins.append((line_start(body, m.start()), indent_at(body, m.start()) + 'verifSched("verify:before-insert")\n'))
+            nlocks += 1
+        elif not in_verify:
+            ins.append((line_start(body, m.start()), indent_at(body, m.start()) + 'verifSched("cache-lock:%s")\n' % name))
+    if not in_verify:
+        first, _ = next_code_line(body, body.index("\n") + 1)
+        ins.append((first, indent_at(body, first) + 'defer verifSched("verify:miss-exit")\n'))
+    return apply_inserts(body, ins), nlocks, q_stmt
 
-    # 2. before-insert: every am.cacheMu.Lock() after the query
-    locks = [m for m in re.finditer(r"^[ \t]*am\.cacheMu\.Lock\(\)[ \t]*$", body, re.M) if m.start() > after_query]
-    if not locks:
-        die("VerifyToken: no am.cacheMu.Lock() after the token query (cache insert landmark missing)")
 
-    # 3. after-cache-miss: after the miss counter if it is there (exactly once,
-    # before the query), else right before the query statement
-    miss = [m for m in re.finditer(r"^[ \t]*am\.cacheMisses\.Add\([^)\n]*\)[ \t]*$", body, re.M) if m.start() < q_stmt]
+def instrument_miss_and_hit(body, limit, fallback_ok):
+    """In VerifyToken: the cache-miss point (after the miss counter if it is
+    there exactly once before `limit`, else at `limit` when that is a position
+    in VerifyToken) and a point before a write lock on the hit path."""
+    miss = [m for m in re.finditer(r"^[ \t]*am\.cacheMisses\.Add\([^)\n]*\)[ \t]*$", body, re.M) if limit is None or m.start() < limit]
     if len(miss) == 1:
         miss_pos, miss_ind = line_end(body, miss[0].start()), indent_at(body, miss[0].start())
+    elif fallback_ok and limit is not None:
+        miss_pos, miss_ind = limit, indent_at(body, limit)
     else:
-        miss_pos, miss_ind = q_stmt, ind
+        return None
     if "RLock()" not in body[:miss_pos] and "cache[" not in body[:miss_pos]:
-        die("VerifyToken: no cache lookup before the token query (cache-miss landmark missing)")
-
-    ins = [(miss_pos, miss_ind + 'verifSched("verify:after-cache-miss")\n'),
-           (after_query, ind + 'verifSched("verify:after-query")\n')]
-    for m in locks:
-        ins.append((line_start(body, m.start()), indent_at(body, m.start()) + 'verifSched("verify:before-insert")\n'))
-    # a write lock taken on the hit path (before the miss point) gets its own point
-    for m in re.finditer(r"^[ \t]*am\.cacheMu\.Lock\(\)[ \t]*$", body, re.M):
+        die("VerifyToken: no cache lookup before the miss point (cache-miss landmark missing)")
+    ins = [(miss_pos, miss_ind + 'verifSched("verify:after-cache-miss")\n')]
+    for m in re.finditer(LOCK_RE, body, re.M):
         if m.start() < miss_pos:
             ins.append((line_start(body, m.start()), indent_at(body, m.start()) + 'verifSched("verify:hit-path-lock")\n'))
-    for at, text in sorted(ins, reverse=True):
-        body = body[:at] + text + body[at:]
-    return body, len(locks)
+    return apply_inserts(body, ins)
+
+
+def instrument_verify_path(src):
+    """Follow the landmarks wherever they are in the file. Returns (src, number
+    of points, name of the function holding the token query)."""
+    reach = reachable_from_verify(src)
+    funcs = all_funcs(src)
+    holders = [n for n in reach if re.search(QUERY_RE, src[funcs[n][0]:funcs[n][1]])]
+    if len(holders) != 1:
+        die("expected exactly one function on VerifyToken's path with an am.db.Query call (the token query), found %s" % holders)
+    qf = holders[0]
+    in_verify = qf == "VerifyToken"
+    o, c = funcs[qf]
+    body, nlocks, q_stmt = instrument_query_func(src[o + 1:c], qf, in_verify)
+    src = src[:o + 1] + body + src[c:]
+    if nlocks == 0:
+        # the cache insert may live in yet another helper: it must exist somewhere on the path
+        others = [n for n in reach if n not in (qf, "InvalidateCache") and re.search(LOCK_RE, src[funcs[n][0]:funcs[n][1]], re.M)]
+        if not others:
+            die("no am.cacheMu.Lock() after the token query anywhere on VerifyToken's path (cache insert landmark missing)")
+    npoints = 1 + nlocks + (0 if in_verify else 1)
+
+    funcs = all_funcs(src)
+    o, c = funcs["VerifyToken"]
+    vb = src[o + 1:c]
+    limit = None
+    if in_verify:
+        limit = line_start(vb, re.search(QUERY_RE, vb).start())
+    nb = instrument_miss_and_hit(vb, limit, in_verify)
+    if nb is None:
+        # no miss counter in VerifyToken and the query lives in a helper: the
+        # helper's entry is the miss point
+        ho, hc = funcs[qf]
+        hb = src[ho + 1:hc]
+        first, _ = next_code_line(hb, hb.index("\n") + 1)
+        hb = hb[:first] + indent_at(hb, first) + 'verifSched("verify:after-cache-miss")\n' + hb[first:]
+        src = src[:ho + 1] + hb + src[hc:]
+    else:
+        src = src[:o + 1] + nb + src[c:]
+    return src, npoints + 1, qf
 
 
 def insert_once(body, anchor_re, text, where, what):
@@ -225,11 +308,9 @@ def main():
     if "verifSched(" in src or "verifNow(" in src:
         die("auth.go already contains verif hooks")
 
-    # --- VerifyToken
-    b0, b1 = func_span(src, r"^func \(am \*AuthManager\) VerifyToken\(token string\) \*TokenInfo \{")
-    body = src[b0:b1]
-    body, nlocks = instrument_verify(body)
-    src = src[:b0] + body + src[b1:]
+    # --- VerifyToken and whatever helper holds the token query / cache insert
+    func_span(src, VT_HEADER)  # fail closed if the entry point changed shape
+    src, nlocks, qfunc = instrument_verify_path(src)
 
     # --- InvalidateCache
     b0, b1 = func_span(src, r"^func \(am \*AuthManager\) InvalidateCache\(\) \{")
@@ -247,7 +328,7 @@ def main():
     heads = list(re.finditer(r"^func (?:\([^)]*\) )?(\w+)\(.*\{[ \t]*$", src, re.M))
     for h in reversed(heads):
         name = h.group(1)
-        if name in ("VerifyToken", "InvalidateCache"):
+        if name in ("VerifyToken", "InvalidateCache", qfunc):
             continue
         o = h.end() - 1 - (len(h.group(0)) - len(h.group(0).rstrip()))
         o = src.rindex("{", h.start(), h.end())
@@ -280,7 +361,7 @@ def main():
         f.write(HELPER)
     print("OVERLAY %s %s" % (rel, dst))
     print("OVERLAY internal/auth/zz_verif_sched.go %s" % helper)
-    sys.stderr.write("c21_sched: %d schedule points, %d clock reads rewritten\n" % (4 + nlocks + nother, n))
+    sys.stderr.write("c21_sched: %d schedule points, %d clock reads rewritten\n" % (2 + nlocks + nother, n))
 
 
 if __name__ == "__main__":
